@@ -555,6 +555,26 @@ theorem inv_abandon {s : Sys σ Req Resp} {r : RState σ Req Resp} (h : Inv step
       cross := h.cross, nodup := h.nodup, slots_free := h.slots_free
       pool_nodup := h.pool_nodup, pool_lt := h.pool_lt }
 
+/-- a batched call: the items are posted one after the other, each with a fresh channel -/
+theorem inv_batch (items : List (Nat × Req)) {s : Sys σ Req Resp} {r : RState σ Req Resp}
+    (h : Inv step route s0 s r) (hidle : ∀ p ∈ items, s.client p.1 = .idle)
+    (hnd : (items.map (·.1)).Nodup) :
+    ∃ r', Inv step route s0 (items.foldl (fun s p => postFresh route s p.1 p.2) s) r' := by
+  induction items generalizing s r with
+  | nil => exact ⟨r, h⟩
+  | cons p items ih =>
+    rw [List.map_cons, List.nodup_cons] at hnd
+    have h1 := inv_invoke step route s0 h p.1 p.2 s.fresh s.pool (s.fresh + 1) (hidle p (by simp))
+      (Nat.lt_succ_self _) (fun hx => Nat.lt_irrefl _ (h.pool_lt _ hx)) (fun x hx => hx)
+      (Nat.le_succ _) (Or.inr (Nat.le_refl _)) h.pool_nodup
+    rw [List.foldl_cons]
+    apply ih h1 _ hnd.2
+    intro q hq
+    have hne : q.1 ≠ p.1 := fun e => hnd.1 (e ▸ List.mem_map.mpr ⟨q, hq, rfl⟩)
+    show upd s.client p.1 _ q.1 = .idle
+    rw [upd_other _ _ _ _ hne]
+    exact hidle q (by simp [hq])
+
 /-- the invariant is inductive -/
 theorem inv_step {s s' : Sys σ Req Resp} {r : RState σ Req Resp} (h : Inv step route s0 s r)
     (hs : Step step route s s') : ∃ r', Inv step route s0 s' r' := by
@@ -587,6 +607,7 @@ theorem inv_step {s s' : Sys σ Req Resp} {r : RState σ Req Resp} (h : Inv step
     exact ⟨_, inv_ret step route s0 h c id req sid resp s.pool hc hsl (fun x hx => Or.inl hx)
       h.pool_nodup⟩
   | abandon c id req sid hc => exact ⟨r, inv_abandon step route s0 h c⟩
+  | invokeBatch items hidle hnd => exact inv_batch step route s0 items h hidle hnd
 
 theorem reach_inv {pool : Nat} {s : Sys σ Req Resp} (hr : Reach step route s0 pool s) :
     ∃ r, Inv step route s0 s r := by
